@@ -398,7 +398,7 @@ func c05Valid(sc *Scn) bool {
 func init() {
 	Register(&Family{
 		Name:   "C05.seq",
-		Props:  []string{"C05"},
+		Props:  []string{"C05", "C08"},
 		Weight: 5,
 		Gen: func(g *Gen) *Scn {
 			sc := &Scn{Family: "C05.seq"}
@@ -556,7 +556,21 @@ func runC05Seq(e *Env) {
 			}
 		}
 		if len(next) == 0 {
-			e.Violate("C05", "output:"+sc.Sub, fmt.Sprintf("%s: arrival %s produced [%s]; the definition prescribes %s (arrivals so far: %s; full trace %s)", sc.Sub, history[len(history)-1], traceN(got), strings.Join(wants, " or "), strings.Join(history, " "), rec.Trace()))
+			// C08: a synchronous pipeline has delivered everything an arrival gives rise to when the
+			// producer's call returns; here what was delivered is a proper prefix of what the
+			// definition prescribes for this arrival
+			clause := "output:" + sc.Sub
+			if (sc.Sub == "TakeUntil" || sc.Sub == "SkipUntil") && op.Client == 1 && st.K == "E" {
+				clause += ":notifier-error"
+			}
+			for _, ms := range states {
+				for _, br := range ms.arrive(op.Client, N{K: st.K[0], V: st.V}) {
+					if len(got) < len(br.out) && sameN(br.out[:len(got)], got) && clause == "output:"+sc.Sub {
+						e.Violate("C08", "output-missing-when-call-returned:"+sc.Sub, fmt.Sprintf("%s: the call delivering %s returned having produced [%s] of the prescribed [%s] (arrivals so far: %s)", sc.Sub, history[len(history)-1], traceN(got), traceN(br.out), strings.Join(history, " ")))
+					}
+				}
+			}
+			e.Violate("C05", clause, fmt.Sprintf("%s: arrival %s produced [%s]; the definition prescribes %s (arrivals so far: %s; full trace %s)", sc.Sub, history[len(history)-1], traceN(got), strings.Join(wants, " or "), strings.Join(history, " "), rec.Trace()))
 			return
 		}
 		states = next
@@ -660,7 +674,15 @@ func runC05Conc(e *Env) {
 			}
 			sb.WriteString("; ")
 		}
-		e.Violate("C05", "no-arrival-order:"+sc.Sub, fmt.Sprintf("%s delivered [%s], which is not the definition's output for any arrival order compatible with the producers' calls (%s)", sc.Sub, traceN(got), sb.String()))
+		clause := "no-arrival-order:" + sc.Sub
+		if (sc.Sub == "TakeUntil" || sc.Sub == "SkipUntil") && len(per) > 1 {
+			for _, c := range per[1] {
+				if c.n.K == 'E' && c.ret < 1<<30 {
+					clause += ":notifier-error" // the notifier failed: the known swallowed-error finding applies
+				}
+			}
+		}
+		e.Violate("C05", clause, fmt.Sprintf("%s delivered [%s], which is not the definition's output for any arrival order compatible with the producers' calls (%s)", sc.Sub, traceN(got), sb.String()))
 	} else {
 		e.Probe("explained")
 	}
